@@ -7,13 +7,16 @@
 (* is the one Specification.schema() gives when called directly.            *)
 (***************************************************************************)
 EXTENDS Naturals, Sequences, FiniteSets, TLC
-VARIABLES scn,     \* [integ, kind, endpoints \in {"main", "main+api"}, base]
+VARIABLES scn,     \* [integ, kind, endpoints \in {"main", "main+api", "main+late"}, base]
+                   \* "main+late": the additional endpoint is added AFTER the application generated its document once
           gets     \* Seq of observed replies
 vars == <<scn, gets>>
 InitWith(s) == scn = s /\ gets = <<>>
 \* methods: f1, f4 on the main endpoint, f2 on the additional endpoint "/api"
 Keys == IF scn.kind = "openrpc" THEN {"f1", "f4"}                                      \* OpenRPC documents the root endpoint
-        ELSE {"base#f1", "base#f4"} \cup (IF scn.endpoints = "main+api" THEN {"base/api#f2"} ELSE {})
+        ELSE {"base#f1", "base#f4"} \cup (IF scn.endpoints \in {"main+api", "main+late"} THEN {"base/api#f2"} ELSE {})
+\* what the early generation (before the additional endpoint existed) had to document
+EarlyKeys == IF scn.kind = "openrpc" THEN {"f1", "f4"} ELSE {"base#f1", "base#f4"}
 ExpectedReply == [status |-> 200, ctype |-> "json", keys |-> Keys, same_as_direct |-> TRUE]
 Get == gets' = Append(gets, ExpectedReply) /\ UNCHANGED scn
 Next == Get
